@@ -471,8 +471,13 @@ class ExpressionParser:
                         break
 
             if prioritize:
+                # the argument that contains `arg` goes first. A repeated argument (maxi(a, a)) is listed once; any other
+                # `arg` stays in the queue: it is an argument of the expression in its own right and must be parsed as well
+                # (e.g. 4*r**2 + 2.0 and 4.0*r**2 + 2.0, which match each other but are two factors of a product)
                 idx = args_sorted.index(arg_tmp)
                 args_final.append(args_sorted.pop(idx))
+                if arg != arg_tmp:
+                    args_sorted.insert(0, arg)
             else:
                 args_final.append(arg)
 
